@@ -72,6 +72,9 @@ func (vc *VC) parseType(s string, pkg *types.Package) *GType {
 	case "bool":
 		return &GType{Kind: "bool"}
 	}
+	if t, ok := vc.tparams[s]; ok {
+		return &GType{Kind: "go", Go: t}
+	}
 	if strings.HasPrefix(s, "gomap[") {
 		t := vc.eng.parseGoTypeExpr(s[2:], pkg)
 		if t == nil {
@@ -221,7 +224,7 @@ func (ctx *EvalCtx) evalBool(e *CExpr, c *Clause) (res *Term) {
 }
 
 func (fr *Frame) ctx(st *State, li *loopInfo) *EvalCtx {
-	ctx := &EvalCtx{vc: fr.vc, st: st, old: fr.old, inst: fr.inst, fc: fr.fc, pkg: fr.fn.Pkg.Pkg, bound: map[string]TV{}}
+	ctx := &EvalCtx{vc: fr.vc, st: st, old: fr.old, inst: fr.inst, fc: fr.fc, pkg: fnTypesPkg(fr.fn), bound: map[string]TV{}}
 	{
 		top := fr
 		for top.parent != nil {
@@ -1281,4 +1284,15 @@ func isObjectType(t types.Type) bool {
 		return strings.HasSuffix(p, "/spine") || !strings.HasPrefix(p, "github.com/enbility/spine-go")
 	}
 	return false
+}
+
+// fnTypesPkg is the package of fn (of its generic origin for an instantiation).
+func fnTypesPkg(fn *ssa.Function) *types.Package {
+	if fn.Pkg != nil {
+		return fn.Pkg.Pkg
+	}
+	if o := fn.Origin(); o != nil && o.Pkg != nil {
+		return o.Pkg.Pkg
+	}
+	return nil
 }
